@@ -2444,7 +2444,15 @@ impl<'store> PartialEq for ResultTextSelection<'store> {
 
 impl<'store> PartialOrd for ResultTextSelection<'store> {
     fn partial_cmp(&self, other: &Self) -> Option<Ordering> {
-        self.inner().partial_cmp(other.inner())
+        match self.inner().partial_cmp(other.inner()) {
+            // same offsets in different resources are not equal (see PartialEq): order them by resource,
+            // so that equal items end up next to each other when sorting (and dedup() works)
+            Some(Ordering::Equal) => self
+                .resource()
+                .handle()
+                .partial_cmp(&other.resource().handle()),
+            ordering => ordering,
+        }
     }
 }
 
